@@ -60,3 +60,7 @@ G = ['do_braces / do_parens* (called unconditionally; they gate internally on mo
      'what each pass does once it runs (brace pairing, can_remove_braces, sorting permutes whole lines, balanced brackets): NOT proved; the mod_full_brace_if=remove defect quoted in the property lives there and is NOT detectable by this kernel',
      'enum_cleanup (mod_enum_last_comma) runs inside tokenize_cleanup, outside the driver: not covered',
      'list primitives used by the mod passes do not lose tokens: C02-K1']
+
+sys.path.insert(0, os.path.join(os.path.dirname(os.path.abspath(__file__)), '..', '..', 'tools'))
+import replay_lib  # noqa: E402
+REPLAY = replay_lib.make_replay(replay_lib.scenario_gating_default, replay_lib.scenario_encoding, replay_lib.scenario_check_truth)
